@@ -21,13 +21,84 @@ def _worker_init():
     session_root()
 
 
+class _ChildRaised(Exception):
+    def __init__(self, name, text, tb, lib):
+        super().__init__(f"{name}: {text}")
+        self.name, self.text, self.tb, self.lib = name, text, tb, lib
+
+
+def _isolated(fn, case, limit):
+    """Run fn(case) in a forked child: no library-global state (memo tables, caches a change to the library
+    may introduce) leaks from one case into the next, so every reported case reproduces from its replay file."""
+    import pickle
+
+    r, w = os.pipe()
+    sys.stdout.flush()
+    sys.stderr.flush()
+    pid = os.fork()
+    if pid == 0:
+        code = 0
+        try:
+            os.close(r)
+            try:
+                out = ("ok", fn(case))
+            except BaseException as e:  # noqa: BLE001
+                out = ("exc", type(e).__name__, str(e), traceback.format_exc()[-3000:], _library_frame(e))
+            with os.fdopen(w, "wb") as f:
+                pickle.dump(out, f)
+        except BaseException:  # noqa: BLE001
+            code = 3
+        finally:
+            os._exit(code)
+    os.close(w)
+
+    def wait(_case):
+        chunks = []
+        with os.fdopen(r, "rb") as f:
+            while True:
+                b = f.read(1 << 20)
+                if not b:
+                    break
+                chunks.append(b)
+        return b"".join(chunks)
+
+    try:
+        data = _with_alarm(wait, case, limit)
+    except BaseException:
+        try:
+            os.kill(pid, 9)
+        except OSError:
+            pass
+        os.waitpid(pid, 0)
+        raise
+    os.waitpid(pid, 0)
+    if not data:
+        raise RuntimeError("isolated case produced no result (child died)")
+    out = pickle.loads(data)
+    if out[0] == "ok":
+        return out[1]
+    raise _ChildRaised(*out[1:])
+
+
+ISOLATE_MAX_CASES = 3000  # a map over more (hence small) cases runs them in the pool workers directly
+
+
 def _call(args):
-    modname, fname, case = args
+    modname, fname, case = args[:3]
     mod = importlib.import_module(modname)
     fn = getattr(mod, fname)
     limit = int(os.environ.get("MC_CASE_TIMEOUT") or getattr(mod, "CASE_TIMEOUT", 900))
+    isolate = (len(args) > 3 and args[3]) and getattr(mod, "ISOLATE", True) \
+        and os.environ.get("MC_ISOLATE", "1") != "0"
     try:
+        if isolate:
+            return case, _isolated(fn, case, limit)
         return case, _with_alarm(fn, case, limit)
+    except _ChildRaised as e:
+        if e.lib is not None:
+            return case, {"viol": [(f"library-raises-{e.name}@{e.lib}", e.tb[-1500:],
+                                    {"__fn__": fname, "__case__": case})], "n": 1}
+        return case, {"harness_error": f"{e.name}: {e.text}\n{e.tb}"}
     except CaseTimeout:
         # an operation of the library did not terminate on an input the unchanged tree handles
         return case, {"viol": [("library-does-not-terminate", f"no result after {limit}s",
@@ -145,13 +216,14 @@ class Ctx:
             return
         if chunksize is None:
             chunksize = max(1, min(64, len(cases) // (NPROC * 8) or 1))
+        iso = len(cases) <= ISOLATE_MAX_CASES
         if NPROC == 1 or len(cases) == 1:
             _worker_init()
             for c in cases:
-                yield _call((module, fname, c))
+                yield _call((module, fname, c, iso))
             return
         yield from self.pool().imap_unordered(
-            _call, [(module, fname, c) for c in cases], chunksize
+            _call, [(module, fname, c, iso) for c in cases], chunksize
         )
 
     # ---- result handling
@@ -261,22 +333,24 @@ class Ctx:
             if hasattr(mod, "replay"):
                 try:
                     _worker_init()
+                    tmo = int(getattr(mod, "CASE_TIMEOUT", 900))
                     if sig == "library-does-not-terminate":
                         fn = getattr(mod, ent["case"]["__fn__"])
                         try:
-                            _with_alarm(fn, ent["case"]["__case__"], int(getattr(mod, "CASE_TIMEOUT", 900)))
+                            _isolated(fn, ent["case"]["__case__"], tmo)
                             confirmed = False
                         except CaseTimeout:
                             confirmed = True
                     elif sig.startswith("library-raises-"):
                         fn = getattr(mod, ent["case"]["__fn__"])
                         try:
-                            fn(ent["case"]["__case__"])
+                            _isolated(fn, ent["case"]["__case__"], tmo)
                             confirmed = False
-                        except BaseException as e2:  # noqa: BLE001
-                            confirmed = sig == f"library-raises-{type(e2).__name__}@{_library_frame(e2)}"
+                        except _ChildRaised as e2:
+                            confirmed = sig == f"library-raises-{e2.name}@{e2.lib}"
                     else:
-                        got = mod.replay(ent["case"])
+                        # each replay in a fresh child: earlier replays leave nothing behind
+                        got = _isolated(mod.replay, ent["case"], tmo)
                         confirmed = any(v[0] == sig for v in got)
                 except BaseException as e:  # noqa: BLE001
                     confirmed = False
